@@ -208,18 +208,18 @@ Definition row_eqb (r1 r2 : row) : bool :=
 
 Inductive cls := COmit | CKeep | CFree.
 
-(* may / must the locus be omitted.  The text only LICENSES omission ("omitted only when ..."):
-   a locus on an excluded chromosome, failing the count filters (on the exact out-window of
-   track target_idx) or with an expanded window that touches a chromosome end may be kept or
-   left out (CFree); a window that crosses a chromosome end has no bases to return and must be
-   left out; every other locus must be kept. *)
+(* may / must the locus be omitted (classify is only applied to loci on the requested
+   chromosomes, see spec_loci).  The text only LICENSES omission ("omitted only when ..."):
+   a locus failing the count filters (on the exact out-window of track target_idx) or with an
+   expanded window that touches a chromosome end may be kept or left out (CFree); a window
+   that crosses a chromosome end has no bases to return and must be left out; every other
+   locus must be kept. *)
 Definition classify (x : xcall) (l : locus) : cls :=
   match find_chrom (x_gen x) (l_chr l) with
   | None => COmit
   | Some c =>
       let len := Z.of_nat (length (c_seq c)) in
       if crosses x l len then COmit else
-      if negb (on_chroms (x_chroms x) l) then CFree else
       let total := sumZ (nth (x_tgt x) (snd (expected_row x c l)) []) in
       if has_sig x && (below (x_min x) total || above (x_max x) total) then CFree
       else if touches x l len then CFree else CKeep
@@ -286,17 +286,18 @@ Definition spec_meme (g : mfile) (o : outcome) : bool :=
     end
   else true.
 
-(* Err (numpy.stack of nothing) is accepted exactly when an empty result would be.  The text
-   does not say whether chromosome filtering comes before or after the interleaving; both
-   readings are accepted. *)
+(* Err (numpy.stack of nothing) is accepted exactly when an empty result would be.
+   Order clause: the rows are those of the round-robin merge of the locus sets restricted to
+   the requested chromosomes ("rows in input order (round-robin interleaved across multiple
+   locus sets)": the k-th locus on a requested chromosome of every set comes before the
+   (k+1)-th of any set, whatever lies in between in the files), with the loci omitted for an
+   edge / count / cap reason taken out of that sequence. *)
 Definition spec_loci (x : xcall) (o : outcome) : bool :=
   if in_scope x then
     let cap := option_map Z.to_nat (x_nloci x) in
     match match o with Ok (VLoci rows) => Some rows | Err => Some [] | _ => None end with
     | None => false
-    | Some rows =>
-        if matchr x (rr (map (filter_chroms (x_chroms x)) (x_sets x))) cap rows then true
-        else matchr x (rr (x_sets x)) cap rows
+    | Some rows => matchr x (rr (map (filter_chroms (x_chroms x)) (x_sets x))) cap rows
     end
   else true.
 
